@@ -43,7 +43,7 @@ Definition C26_full : Prop :=
     read lock, the failing stream cannot delete/close — it can only drain; it closes after the sender is done. *)
 Definition C26_old_iter_write : list label := [GInsB 0; GInsE 0; Commit; SRecv; GInsB 1].
 Definition C26_old_closed_send : list label :=
-  [GInsB 0; GInsE 0; Commit; SRecv; SLock; SNext 10; SSend; SEnd; GRecv 0; Commit; SRecv; SLock; SNext 10; GSend 0 false].
+  [GInsB 0; GInsE 0; Commit; SRecv; SLock; SNext 10; SSend; SEnd; GRecv 0; Commit; SRecv; SLock; SNext 10; GSend 0 false; GSpawn 0].
 Example C26_old_witnesses_blocked :
   (exists s, run_labels (init [10; 11] 500 500) C26_old_iter_write = Some s
              /\ enabled SLock s = false /\ enabled (GInsB 0) s = false)
@@ -63,7 +63,7 @@ Qed.
 Definition C26_witness_same_addr_1 : list label :=
   [GInsB 0; GInsE 0; Commit; SRecv; SLock; SNext 10; SSend; SEnd; GRecv 0; GInsB 1; GInsE 1].
 Definition C26_witness_same_addr_2 : list label :=
-  [GSend 0 false; GDelB 0; GDelE 0; GCloseL 0; Commit; SRecv; SLock; SEnd].
+  [GSend 0 false; GSpawn 0; GDelB 0; GDelE 0; GCloseL 0; Commit; SRecv; SLock; SEnd].
 
 Theorem C26_delivery_refuted : ~ C26_delivery.
 Proof.
@@ -114,6 +114,40 @@ Theorem C26_stable_progress : forall ks cs cc ls s, NoDup ks -> forallb stable l
   enabled Commit s = true \/ internal_enabled s = true.
 Proof. exact stable_progress. Qed.
 Print Assumptions C26_stable_progress.
+
+(** Deadlock freedom of the master ("without ... blocking"), for the cleanup order of the code — start the drainer,
+    THEN take the write lock (GSpawn before GDelB; checks/C26.py ties that order to the source): from the empty
+    server, for every schedule, any number of replicas (addresses may coincide), any capacities > 0 for the stream
+    channels, in every reachable state either the master can take a step by itself (sender goroutine, stream
+    goroutines, drainers), or some replica is inside stream.Send (the environment's turn: a replica that never
+    returns is the stalled-replica finding), or nothing is left to do. *)
+Theorem C26_no_deadlock : forall ks cs cc ls s, (0 < cc)%N -> forallb code_order ls = true ->
+  run_labels (init ks cs cc) ls = Some s ->
+  master_enabled s = true \/ in_send s = true \/ quiescent s = true.
+Proof. exact no_deadlock. Qed.
+Print Assumptions C26_no_deadlock.
+
+(** The order matters (seeded mutation C26-2 = lock first, drainer afterwards, label GDelBx): replica 0 is a full
+    channel behind, the sender is blocked on its channel holding the read lock, then replica 0's stream.Send fails.
+    With the code's order the drainer starts (GSpawn) and everything resumes; with the swapped order the stream
+    waits for the write lock, the sender waits for the channel: every step of the swapped program is disabled,
+    no replica is in Send, and work is pending — a deadlock, although replica 0 has DISCONNECTED. *)
+Definition C26_behind_then_fails : list label :=
+  [GInsB 0; GInsE 0; Commit; SRecv; SLock; SNext 10; SSend; SEnd; GRecv 0;
+   Commit; SRecv; SLock; SNext 10; SSend; SEnd; Commit; SRecv; SLock; SNext 10; GSend 0 false].
+Example C26_swapped_order_deadlocks :
+  exists s, run_labels (init [10] 5 1) C26_behind_then_fails = Some s
+    /\ enabled (GDelBx 0) s = false            (* the swapped program's only next step of stream 0 *)
+    /\ enabled SSend s = false /\ enabled SRecv s = false /\ enabled SLock s = false /\ enabled SEnd s = false
+    /\ enabled (SNext 10) s = false /\ enabled (GRecv 0) s = false /\ enabled (GDrain 0) s = false
+    /\ in_send s = false /\ quiescent s = false
+    /\ enabled (GSpawn 0) s = true             (* the code's order: the drainer starts ... *)
+    /\ exists s', run_labels s [GSpawn 0; GDrain 0; SSend; SEnd; GDrain 0; GDelB 0; GDelE 0; GCloseL 0] = Some s'
+                  /\ quiescent s' = true /\ panic s' = None.   (* ... and the system runs to quiescence *)
+Proof.
+  eexists. split; [vm_compute; reflexivity|]. repeat (split; [vm_compute; reflexivity|]).
+  eexists. split; [vm_compute; reflexivity|]. split; vm_compute; reflexivity.
+Qed.
 
 (** ... but it does block on a replica that stops reading (its stream.Send never returns): with
     capacities 1/1, after 4 commits the WAL loop is blocked and the ONLY enabled step is that replica's
